@@ -28,14 +28,17 @@ func tokenPosOf(b *ssa.BasicBlock) token.Pos {
 type PropConfig struct {
 	ID        string   `json:"id"`
 	Functions []string `json:"functions"`
+	Lemmas    []string `json:"lemmas,omitempty"`
 	// Bounded stand-ins (labelled, never counted as proved)
 	Bounded []struct {
 		Name  string `json:"name"`
 		Bound string `json:"bound"`
 		What  string `json:"what"`
 	} `json:"bounded,omitempty"`
-	Assumptions []string `json:"assumptions,omitempty"`
-	NotCovered  []string `json:"not_covered,omitempty"`
+	Assumptions     []string `json:"assumptions,omitempty"`
+	QuickTimeout    int      `json:"quick_timeout,omitempty"`
+	ThoroughTimeout int      `json:"thorough_timeout,omitempty"`
+	NotCovered      []string `json:"not_covered,omitempty"`
 }
 
 type KnownFinding struct {
@@ -92,8 +95,14 @@ func cmdCheck(args []string) int {
 		return 2
 	}
 	timeout := 10
+	if cfg.QuickTimeout > 0 {
+		timeout = cfg.QuickTimeout
+	}
 	if *tier == "thorough" {
 		timeout = 60
+		if cfg.ThoroughTimeout > 0 {
+			timeout = cfg.ThoroughTimeout
+		}
 	}
 	scratch := envOr("VERIF_SCRATCH", fmt.Sprintf("/var/tmp/verif-%d", os.Getpid()))
 	os.MkdirAll(scratch, 0o755)
@@ -102,7 +111,7 @@ func cmdCheck(args []string) int {
 	}
 	P := setup(pkgsOfKeys(cfg.Functions))
 	opts := &runOpts{timeout: timeout, seed: seed, workdir: scratch, jobs: 6}
-	results := make([]*FnResult, len(cfg.Functions))
+	results := make([]*FnResult, len(cfg.Functions)+len(cfg.Lemmas))
 	var wg sync.WaitGroup
 	fsem := make(chan struct{}, 4)
 	for i, k := range cfg.Functions {
@@ -114,7 +123,28 @@ func cmdCheck(args []string) int {
 			results[i] = verifyFunction(P, k, opts)
 		}(i, k)
 	}
+	for i, l := range cfg.Lemmas {
+		wg.Add(1)
+		go func(i int, l string) {
+			defer wg.Done()
+			fsem <- struct{}{}
+			defer func() { <-fsem }()
+			results[len(cfg.Functions)+i] = verifyLemma(P, l, opts)
+		}(i, l)
+	}
 	wg.Wait()
+	proved := map[string]bool{}
+	for _, l := range cfg.Lemmas {
+		proved[l] = true
+	}
+	lemmaAssumed := map[string]bool{}
+	for _, r := range results {
+		for _, l := range r.Lemmas {
+			if !proved[l] {
+				lemmaAssumed[l] = true
+			}
+		}
+	}
 
 	known := loadKnown()
 	openKF := map[string]KnownFinding{}
@@ -127,7 +157,7 @@ func cmdCheck(args []string) int {
 	os.RemoveAll(replayDir)
 	var violations []string
 	var kfPrinted []string
-	total, proved := 0, 0
+	total, nproved := 0, 0
 	byBackend := map[string]int{}
 	var solverTime float64
 	type slow struct {
@@ -214,7 +244,7 @@ func cmdCheck(args []string) int {
 			}
 			total++
 			if o.Status == "proved" {
-				proved++
+				nproved++
 				byBackend[o.Solver]++
 				slowest = append(slowest, slow{o.Name, o.Time, o.Solver})
 				if len(samples) < 6 && (o.Kind == "post" || o.Kind == "inv-keep" || len(samples) < 2) {
@@ -246,6 +276,9 @@ func cmdCheck(args []string) int {
 	for _, x := range keys(axioms) {
 		trusted = append(trusted, "assumed axiom: "+x)
 	}
+	for _, x := range keys(lemmaAssumed) {
+		trusted = append(trusted, "lemma used but proved under another property's check: "+x)
+	}
 	assumptions := append([]string{}, cfg.Assumptions...)
 	for _, x := range keys(unmod) {
 		assumptions = append(assumptions, "unmodelled call (result and heap havocked): "+x)
@@ -259,7 +292,7 @@ func cmdCheck(args []string) int {
 	ev := map[string]any{
 		"property_id": id, "tier": *tier, "seed": seed, "level": "proof",
 		"coverage": map[string]any{
-			"obligations": total, "discharged": proved,
+			"obligations": total, "discharged": nproved, "lemmas_proved": cfg.Lemmas,
 			"checker_cmd":              fmt.Sprintf("/verif/bin/govc check %s --tier %s", id, *tier),
 			"trusted_base":             trusted,
 			"samples":                  samples,
@@ -290,7 +323,7 @@ func cmdCheck(args []string) int {
 		fmt.Println(l)
 	}
 	fmt.Printf("%s %s: %d/%d obligations discharged over %d functions, %d known findings, %d violations, %.1fs\n",
-		id, *tier, proved, total, len(results), len(kfPrinted), len(violations), time.Since(t0).Seconds())
+		id, *tier, nproved, total, len(results), len(kfPrinted), len(violations), time.Since(t0).Seconds())
 	return exit
 }
 
